@@ -483,7 +483,7 @@ def scenarios(ctx):
         mode = rnd.choice(["val", "val", "val", "grad", "rvs"])
         out.append(instantiate(rnd, params, g["args"], g["names"], mode))
     n_emitted_used = len(out) - 2
-    n_rand = 700 if ctx.quick else 12000
+    n_rand = 700 if ctx.quick else 8000
     for _ in range(n_rand):
         params, args = random_dag(rnd, rnd.choice([1, 2, 3, 4, 4, 4]))
         names = closed_orders(rnd, params, args)
